@@ -46,6 +46,18 @@ type Meta struct {
 	Agg   string `json:"agg"`
 }
 
+type BurstJob struct {
+	Suffix string `json:"suffix"` // appended to the application name (URL-significant characters, tags)
+	Slot   int    `json:"slot"`
+	Meta   Meta   `json:"meta"`
+	Stack  []byte `json:"stack"`
+	V      uint64 `json:"v"`
+}
+type BurstIn struct {
+	Threads int        `json:"threads"`
+	Jobs    []BurstJob `json:"jobs"`
+}
+
 type Input struct {
 	MS      []treeu.Stack `json:"ms"`
 	Meta    *Meta         `json:"meta,omitempty"` // nil: the client omits the four parameters
@@ -59,6 +71,7 @@ type Input struct {
 	TagKV   [][2]string   `json:"tagkv,omitempty"` // structured tags (used instead of Tags when present)
 	Slot    int           `json:"slot"`           // which 10 s window
 	UseCT   bool          `json:"use_ct"`         // select trie/tree by Content-Type instead of format=
+	Burst   *BurstIn      `json:"burst,omitempty"` // distinct jobs handed to one remote uploader with several upload threads
 	RawQuery []byte       `json:"rawq,omitempty"` // arbitrary raw query string for url.ParseQuery (raw class)
 	Raw     []byte        `json:"raw,omitempty"`  // arbitrary body for the two text parsers only
 	Class   string        `json:"class"`
@@ -75,10 +88,46 @@ type env struct {
 	rem     *remote.Remote
 	dir2    *direct.Direct
 	mu      sync.Mutex
+	burstOn bool
+	burst   []burstReq
 	lastQ   url.Values
 	lastRaw string
 	lastCT  string
 	counter int
+}
+
+type burstReq struct {
+	q    url.Values
+	body []byte
+}
+
+// rvLogger: Debugf is called by uploadProfile between writing the request's query and building the request; the
+// uploader threads of a burst meet here (released when T of them have arrived, or after a short timeout), so that
+// their uploads really overlap.  Only the public agent.Logger interface is used.
+type rvLogger struct {
+	mu sync.Mutex
+	n  int
+	T  int
+	ch chan struct{}
+}
+
+func (l *rvLogger) Infof(string, ...interface{})  {}
+func (l *rvLogger) Errorf(string, ...interface{}) {}
+func (l *rvLogger) Debugf(string, ...interface{}) {
+	l.mu.Lock()
+	l.n++
+	if l.n%l.T == 0 {
+		close(l.ch)
+		l.ch = make(chan struct{})
+		l.mu.Unlock()
+		return
+	}
+	ch := l.ch
+	l.mu.Unlock()
+	select {
+	case <-ch:
+	case <-time.After(30 * time.Millisecond):
+	}
 }
 
 var E *env
@@ -108,6 +157,11 @@ func setup() *env {
 	mux := ctrl.VerifMux()
 	e.handler = http.HandlerFunc(func(w http.ResponseWriter, r *http.Request) {
 		e.mu.Lock()
+		if e.burstOn {
+			b, _ := io.ReadAll(r.Body)
+			r.Body = io.NopCloser(bytes.NewReader(b))
+			e.burst = append(e.burst, burstReq{q: r.URL.Query(), body: b})
+		}
 		e.lastQ = r.URL.Query()
 		e.lastRaw = r.URL.RawQuery
 		e.lastCT = r.Header.Get("Content-Type")
@@ -181,6 +235,59 @@ func (e *env) waitDirect(app string, st, et time.Time) {
 	e.st.Put(&storage.PutInput{StartTime: st, EndTime: et, Key: sk, Val: t, SpyName: "sync", SampleRate: 100, Units: "samples", AggregationType: "sum"})
 }
 
+// runBurst hands all jobs to one remote uploader with several upload threads and records what the server received.
+func (e *env) runBurst(base string, b *BurstIn) (string, string, []string) {
+	lg := &rvLogger{T: b.Threads, ch: make(chan struct{})}
+	rem, err := remote.New(remote.RemoteConfig{UpstreamAddress: e.ts.URL, UpstreamThreads: b.Threads,
+		UpstreamRequestTimeout: 10 * time.Second}, lg)
+	if err != nil {
+		panic(err)
+	}
+	e.mu.Lock()
+	e.burst, e.burstOn = nil, true
+	e.mu.Unlock()
+	items := make([]string, len(b.Jobs))
+	var names []string
+	for i, bj := range b.Jobs {
+		st := time.Date(2021, 1, 2, 0, 0, 0, 0, time.UTC).Add(time.Duration(bj.Slot) * 10 * time.Second)
+		et := st.Add(10 * time.Second)
+		name := fmt.Sprintf("%s.burst%d%s", base, i, bj.Suffix)
+		names = append(names, coqRunes(name))
+		t := transporttrie.New()
+		t.Insert(append([]byte{}, bj.Stack...), bj.V, true)
+		rem.Upload(&upstream.UploadJob{Name: name, StartTime: st, EndTime: et, SpyName: bj.Meta.Spy, SampleRate: bj.Meta.Rate,
+			Units: bj.Meta.Units, AggregationType: bj.Meta.Agg, Trie: t})
+		items[i] = "({| j_name := " + lib.Bytes([]byte(name)) + "; j_start := " + lib.N(uint64(st.Unix())) + "; j_end := " + lib.N(uint64(et.Unix())) +
+			"; j_spy := " + lib.Bytes([]byte(bj.Meta.Spy)) + "; j_rate := " + lib.N(uint64(bj.Meta.Rate)) + "; j_units := " + lib.Bytes([]byte(bj.Meta.Units)) +
+			"; j_aggregation := " + lib.Bytes([]byte(bj.Meta.Agg)) + " |}, " + lib.Pair(lib.Bytes(bj.Stack), lib.N(bj.V)) + ")"
+	}
+	deadline := time.Now().Add(15 * time.Second)
+	for time.Now().Before(deadline) {
+		e.mu.Lock()
+		n := len(e.burst)
+		e.mu.Unlock()
+		if n >= len(b.Jobs) {
+			break
+		}
+		time.Sleep(time.Millisecond)
+	}
+	time.Sleep(5 * time.Millisecond)
+	rem.Stop()
+	e.mu.Lock()
+	got := e.burst
+	e.burst, e.burstOn = nil, false
+	e.mu.Unlock()
+	gotItems := make([]string, len(got))
+	for i, g := range got {
+		kvs := "[]"
+		if t, err := transporttrie.Deserialize(bytes.NewReader(g.body)); err == nil && t != nil {
+			kvs = trieu.CoqKVs(trieu.Iter(t))
+		}
+		gotItems[i] = lib.Pair(coqQuery(g.q), kvs)
+	}
+	return lib.List(items), lib.List(gotItems), names
+}
+
 func (e *env) close() {
 	e.ts.Close()
 	e.dir2.Stop()
@@ -198,6 +305,13 @@ var unitsL = []string{"samples", "objects", "bytes", "lock_nanoseconds", "lock+n
 var appSuffixes = []string{"", "", ".c++", ".r&d", ".100%", ".a=b", ".what?", ".#1", ".x;y", ".a/b", ".two words", ".é", ".a+b&c%3D#?;/ d"}
 var tagVals = []string{"prod", "c++", "r&d", "100%", "a=b", "why?", "#7", "x;y", "a/b", "us west", "zürich", "+&%=?#;/ é", "%2B"}
 var tagKeys = []string{"env", "lang", "team", "k+1", "a&b", "q?", "p/q", "ключ"}
+
+func burstThreads(b *BurstIn) int {
+	if b == nil {
+		return 0
+	}
+	return b.Threads
+}
 
 func tagsIrregular(kv [][2]string) bool {
 	seen := map[string]bool{}
@@ -380,6 +494,20 @@ func gen(r *rand.Rand, idx int, tier string) Input {
 		}
 	}
 	in.UseCT = lib.Chance(r, 0.3)
+	if idx%12 == 5 {
+		b := &BurstIn{Threads: lib.Pick(r, []int{4, 4, 8})}
+		n := b.Threads * lib.Range(r, 2, 4)
+		for i := 0; i < n; i++ {
+			j := BurstJob{Suffix: lib.Pick(r, appSuffixes), Slot: r.Intn(1000),
+				Meta:  Meta{Spy: lib.Pick(r, spies), Rate: lib.Pick(r, rates), Units: lib.Pick(r, unitsL), Agg: lib.Pick(r, aggs)},
+				Stack: append([]byte(fmt.Sprintf("job%d;", i)), trieu.RandKey(r, 2, 8)...), V: uint64(1000 + i)}
+			if lib.Chance(r, 0.4) {
+				j.Suffix += "{" + lib.Pick(r, tagKeys) + "=" + lib.Pick(r, tagVals) + "}"
+			}
+			b.Jobs = append(b.Jobs, j)
+		}
+		in.Burst = b
+	}
 	return in
 }
 
@@ -611,7 +739,7 @@ func run(in Input) (res lib.Result) {
 		coq := "{| c_ms := " + lib.List(msItems) + "; c_text_ok := false; c_meta := None; c_groups := None; c_lines := None; c_trie := None; c_tree := None; " +
 			"c_job := None; c_job_ns := None; c_remote_slots := []; c_direct_slots := []; c_series := None; c_remote := None; c_direct := None; c_go_groups := None; c_go_lines := None; c_raw := " +
 			lib.Some("("+cbytes(in.Raw)+", "+parseGroupsGo(in.Raw)+", "+parseLinesGo(in.Raw)+")") +
-			"; c_names := []; c_stored_keys := []; c_remote_rawq := None; c_hostile_q := " + hostileQueryCoq(in.RawQuery) + "; c_raw_groups := " + rg + "; c_raw_lines := " + rl + " |}"
+			"; c_burst := []; c_burst_got := []; c_names := []; c_stored_keys := []; c_remote_rawq := None; c_hostile_q := " + hostileQueryCoq(in.RawQuery) + "; c_raw_groups := " + rg + "; c_raw_lines := " + rl + " |}"
 		return lib.Result{Coq: coq, NonTrivial: false, Feat: map[string]interface{}{"class": "raw", "raw_len": len(in.Raw), "raw_with_intent": len(in.MS) > 0}}
 	}
 	e.counter++
@@ -798,6 +926,12 @@ func run(in Input) (res lib.Result) {
 		}
 	}
 
+	burstCoq, burstGot := "[]", "[]"
+	if in.Burst != nil && len(in.Burst.Jobs) > 0 {
+		var bn []string
+		burstCoq, burstGot, bn = e.runBurst(base, in.Burst)
+		namesSent = append(namesSent, bn...)
+	}
 	metaCoq := none
 	if in.Meta != nil {
 		metaCoq = lib.Some("(" + lib.Bytes([]byte(in.Meta.Spy)) + ", " + lib.N(uint64(in.Meta.Rate)) + ", " +
@@ -821,7 +955,7 @@ func run(in Input) (res lib.Result) {
 	coq := "{| c_ms := " + treeu.CoqStacks(in.MS) + "; c_text_ok := " + lib.Bool(textok) + "; c_meta := " + metaCoq +
 		"; c_groups := " + sentCoq["groups"] + "; c_lines := " + sentCoq["lines"] + "; c_trie := " + sentCoq["trie"] +
 		"; c_tree := " + sentCoq["tree"] + "; c_job := " + jobCoq + "; c_job_ns := " + jobNs + "; c_remote_slots := " + remoteSlots + "; c_direct_slots := " + directSlots + "; c_series := " + seriesCoq + "; c_remote := " + remoteCoq + "; c_direct := " + directCoq +
-		"; c_go_groups := " + goGroups + "; c_go_lines := " + goLines + "; c_raw := None; c_names := " + lib.List(namesSent) + "; c_stored_keys := " + e.storedKeys(base) + "; c_remote_rawq := " + remoteRawq + "; c_hostile_q := None; c_raw_groups := None; c_raw_lines := None |}"
+		"; c_go_groups := " + goGroups + "; c_go_lines := " + goLines + "; c_raw := None; c_burst := " + burstCoq + "; c_burst_got := " + burstGot + "; c_names := " + lib.List(namesSent) + "; c_stored_keys := " + e.storedKeys(base) + "; c_remote_rawq := " + remoteRawq + "; c_hostile_q := None; c_raw_groups := None; c_raw_lines := None |}"
 
 	// features: prefix structure
 	nonBoundary, prefixOf, repeats := false, false, false
@@ -864,7 +998,7 @@ func run(in Input) (res lib.Result) {
 		NonTrivial: nonBoundary || prefixOf,
 		Feat: map[string]interface{}{"class": in.Class, "formats": strings.Join(in.Formats, ","), "upload": strings.Join(in.Upload, ","),
 			"non_boundary_prefix": nonBoundary, "prefix_of_another": prefixOf, "repeats": repeats, "count_magnitude": mag,
-			"meta_omitted": in.Meta == nil, "stacks": len(in.MS), "by_content_type": in.UseCT, "tags": len(in.TagKV), "tags_duplicate_or_padded": tagsIrregular(in.TagKV), "app_suffix": in.AppX, "job_start_9th_second_ge_500ms": in.JobStart >= 9500000000, "job_end_on_boundary": in.JobEnd == 10000000000 || in.JobEnd == 0},
+			"meta_omitted": in.Meta == nil, "stacks": len(in.MS), "by_content_type": in.UseCT, "burst_threads": burstThreads(in.Burst), "tags": len(in.TagKV), "tags_duplicate_or_padded": tagsIrregular(in.TagKV), "app_suffix": in.AppX, "job_start_9th_second_ge_500ms": in.JobStart >= 9500000000, "job_end_on_boundary": in.JobEnd == 10000000000 || in.JobEnd == 0},
 	}
 }
 
